@@ -454,7 +454,7 @@ class Check(core.PropertyCheck):
 
     def scenarios(self, ctx, models):
         rng = random.Random(ctx.seed + 27)
-        nwalk = {"udp": 1500, "tcp": 800, "seg": 600} if ctx.quick else {"udp": 20000, "tcp": 12000, "seg": 6000}
+        nwalk = {"udp": 1000, "tcp": 600, "seg": 500} if ctx.quick else {"udp": 20000, "tcp": 12000, "seg": 6000}
         seen = set()
 
         def emit(b, source):
@@ -468,7 +468,7 @@ class Check(core.PropertyCheck):
 
         for tag, m in zip(self.TAGS, models[:3]):
             g = m.graph
-            for b in g.edge_cover(ctx.rng, max_len=40, tail=6) + g.random_walks(ctx.rng, nwalk[tag], 40):
+            for b in g.edge_cover(ctx.rng, max_len=40, tail=14) + g.random_walks(ctx.rng, nwalk[tag], 40):
                 sc = emit(b, "model")
                 if sc:
                     yield sc
